@@ -28,9 +28,9 @@ TEXT = {
     "C06": ("The API agreement relations and the composition law (readonly-free schemas) evaluated with six fresh real validators per generated case.", "DESIGN.md section 6 C06"),
     "C07": ("Random call histories (mixed flags, invalid / non-mapping documents, accepted and rejected per-call schemas) and all histories of length <= 2/3 over a pool of 8 calls: used instance vs fresh instance on "
             "result, error keys, both trees node by node, processed document, rendered errors.", "DESIGN.md section 6 C07"),
-    "C08": ("Submission histories over four validator classes and all entry points, with type-twins, context-twins, corrupted tails of *of lists and subclass-only schemas: warm run vs run with caches cleared before every submission.",
+    "C08": ("Submission histories over four validator classes and all entry points, with type-twins, context-twins, spelling-twins (also as UserDict / OrderedDict), typed members and hash-alike scalars of custom rules, one schema under registries that give its names different meanings, corrupted tails of *of lists and subclass-only schemas: warm run vs run with caches cleared before every submission.",
             "DESIGN.md section 6 C08"),
-    "C09": ("Recount oracle on the real code (each definition validated on its own by a fresh validator with inherited type/allow_unknown) against error.info and definitions_errors; *of errors diffed against the Spec/Impl models.",
+    "C09": ("Recount oracle on the real code (each definition validated on its own by a fresh validator with the SAME options and the inherited type/allow_unknown rules, errors beneath the field; a second recount under the implementation's allow_unknown=True attributes a discrepancy to the recorded finding) against error.info and definitions_errors; *of errors diffed against the Spec/Impl models.",
             "DESIGN.md section 6 C09"),
     "C10": ("Standalone sub-document oracle on the real code for schema (dict/list), items, valuesrules, keysrules, with per-field overrides; directed family for root-relative dependencies; group errors diffed against the Spec/Impl models.",
             "DESIGN.md section 6 C10"),
@@ -57,13 +57,13 @@ TEXT = {
 PROVED = {
     "C01": "the extracted priority / drop-list / type / *of / site / error facts equal the documented ones (vm_compute on the record re-read from the source); the code-shaped rule queue (pop(0), remove) evaluates exactly the rules of the declarative skip-set reading, for every duplicate-free queue and arbitrary handlers; verdict iff no errors. PARTIAL: equality with the reference interpreter on all inputs is the differential run, the Spec being the same model at documented constants.",
     "C02": "the extracted pipeline is the documented step order with its guards; a failing coercer keeps the value, files its error at the field's path and stops the chain; unknown-field rules never touch schema fields; items of the wrong length are not normalized.",
-    "C03": "every leaf rule handler returns normally for EVERY value (any nesting, unhashable members) given a constraint of the declared shape; filing an error succeeds whenever the field's resolved rule set holds the rule. PARTIAL: the recursive skeleton and normalization are decided by the oracle and the diffed exception behaviour.",
+    "C03": "every leaf rule handler returns normally for EVERY value (any nesting, unhashable members) given a constraint of the declared shape (`contains` and a mapping of `allowed` values for ANY constraint since the repairs e210946 / 2752c56); filing an error succeeds whenever the field's resolved rule set holds the rule. PARTIAL: the recursive skeleton and normalization are decided by the oracle and the diffed exception behaviour.",
     "C04": "a rejected assignment keeps schema and allow_unknown in force; all entry points decide alike (expand -> validate -> commit, extracted shape); unknown rule / unknown type / normalization rule inside *of / dangling field reference are rejected at the rule set that holds them; a rejected rules set rejects every rules set holding it at a recursion position of the documented grammar (items, keysrules, valuesrules, *of definitions, allow_unknown rule sets, list- and dict-schemas), hence by induction on the nesting a corruption at ANY depth of the inline structure rejects the schema (corrupted_is_rejected). PARTIAL: positions behind registry references, and that the real meta-schema is this grammar, are decided by the differential run and the corruption oracle.",
     "C05": "every write site extracted from the normalization functions is at depth 0 of an owned copy or re-binds the nested member to a copy first, hence no run of the site machine writes into a caller- or schema-owned object; a depth-1 site without the copy is refuted.",
     "C06": "verdict iff no errors; validated() is None iff the verdict is False (always_return_document variant too); normalized() is None iff normalization errors; validate and normalized share processed document and normalization errors. PARTIAL: the composition law is decided by the oracle.",
     "C07": "the attributes reset by the extracted validate() prologue and __init_processing cover the per-call read sets, and any processing function that reads per-call attributes only through them yields, after ANY history, what a fresh instance yields.",
-    "C08": "with a type- and class-aware key (extracted) and equal keys implying equal validity, every submission history equals its cold run and the cold run is plain validity; the context part is REFUTED on the faithful model (bulk and *of definitions share a tag) - the recorded known finding.",
-    "C09": "the *of handler files its error exactly when the extracted comparison holds for the number of definitions that validate individually in the stated child context, with that count, the total and the failing definitions' errors; the comparisons are the documented ones; None skips them.",
+    "C08": "with a type- and class-aware key (extracted) and equal keys implying equal validity, every submission history equals its cold run and the cold run is plain validity (the key is the frozen structure itself since df705fe: no assumption on hash collisions); the context part is REFUTED on the faithful model (bulk and *of definitions share a tag) - the recorded known finding.",
+    "C09": "the *of handler files its error exactly when the extracted comparison holds for the number of definitions that validate individually in the stated child context, with that count, the total and the failing definitions' errors; the comparisons are the documented ones; None skips them. LIMIT: the child context is the implementation's (allow_unknown=True for the definition's validator), so the theorem shares the recorded finding on containers inside definitions; the recount oracle judges it as the property states it.",
     "C10": "child configuration inherits every option and both registries; the root document is the outermost one at every depth; at each of the five sites the filed children are exactly the child validator's errors; bubbling edits schema paths only; update is forwarded; by induction over the whole model every recorded error strictly extends the validator's document path. PARTIAL: equality with standalone validation is decided by the oracle.",
     "C11": "for ARBITRARY error lists the tree returns at every path exactly the errors with that path incl. nested children, holds nothing else, has a node exactly for prefixes of stored paths, is empty iff no errors, and look-ups by definition agree; for validator outputs the tree content is the flattening.",
     "C12": "document paths extend the validator's path; code and rule come from one definition; value and constraint are the field's value and the resolved rule's constraint; children iff group definition. PARTIAL: schema-path resolution is decided by the oracle.",
@@ -71,7 +71,7 @@ PROVED = {
     "C14": "giving ANY of a schema level's field rule sets by the name of a registry entry that holds them leaves validate(document, update, normalize) and normalized(document) of a fresh validator unchanged -- verdict, processed document, every error with paths / constraint / children, an escaping exception -- for every document, configuration and fuel (C14_fields_by_name_process_alike, through every rule handler, the normalization pipeline and every child validator); per use site: same errors, excludes, inherited *of rules, required set. PARTIAL: references INSIDE constraints (sub-schemas, bulk rule sets, items) show in the constraint attribute of errors and are decided by the inline-vs-reference oracle, as are acceptance and self-referential definitions.",
     "C15": "canonical schemas of any nesting are fixed points of expand through every recursion position; an <of>_<rule> key expands to the documented list, split at the first underscore. PARTIAL: equality of outcomes is decided by the variant oracle on the real code.",
     "C16": "per-class cache and same-class child factory (extracted facts); a child inherits the whole configuration; a rule dispatches to the same handler at every depth. PARTIAL: Python-level subclass isolation is decided by the oracle.",
-    "C17": "the defaults work-list terminates within n(n+1)+1 iterations for ARBITRARY setters; an exception other than KeyError is local to its field; the loop in the source is the modelled one (extracted shape tokens); and the LEAST FIXPOINT: for dependency-graph setters over any number of fields, any graph, any fields already present and any order of the pending list, exactly the obtainable fields end up set and exactly the pending fields that are not resolvable carry the error at their own path; two orders give the same result (wl_least_fixpoint, default_setters_least_fixpoint, order_irrelevant). PARTIAL: the VALUES the set fields receive are decided by the graph oracle.",
+    "C17": "the defaults work-list terminates within n(n+1)+1 iterations for ARBITRARY setters; an exception other than KeyError is local to its field; the loop in the source is the modelled one (extracted shape tokens, the seen-set holding the pending tuples themselves since be0af7a); and the LEAST FIXPOINT: for dependency-graph setters over any number of fields, any graph, any fields already present and any order of the pending list, exactly the obtainable fields end up set and exactly the pending fields that are not resolvable carry the error at their own path; two orders give the same result (wl_least_fixpoint, default_setters_least_fixpoint, order_irrelevant). PARTIAL: the VALUES the set fields receive are decided by the graph oracle.",
     "C18": "non-interference over the interleaving semantics for benign shared operations; the lazy class is published complete (extracted shape); expansion of canonical schemas writes equal values; refutation schedules for the shared shorthand literal. PARTIAL by nature: preemption inside a line and C-level effects are outside any model.",
 }
 NOTE = ("Trusted: Coq 8.16.1 kernel (vm_compute, no native_compute, no axioms: Print Assumptions closed) for the theorems listed in the evidence; hand-written models bound to the code only by the correspondence runs; translator/translate.py (fail-closed) for the extracted facts; "
